@@ -450,7 +450,7 @@ func compare(s *Script, r *Result) []Diff {
 			add("backend-method", nClass(s), "method %s vs %s", pi.Method, di.Method)
 		}
 		if !reflect.DeepEqual(di.MD, pi.MD) {
-			add("backend-metadata", "md="+s.MDClass, "custom request metadata at the back-end: proxied %s direct %s", mdString(pi.MD), mdString(di.MD))
+			add("backend-metadata", "md="+s.MDClass+map[bool]string{true: ",bin-padded"}[s.BinPad], "custom request metadata at the back-end: proxied %s direct %s", mdString(pi.MD), mdString(di.MD))
 		}
 		if !reflect.DeepEqual(di.Recv, pi.Recv) {
 			add("backend-messages", nClass(s), "request messages at the back-end: proxied %v direct %v", pi.Recv, di.Recv)
@@ -627,6 +627,7 @@ func setup(r *mon.Run) {
 		"Hostile string values in message fields (trailing backslashes, escaped quotes, braces / brackets in strings, backslash spelled \\u005c) in the first / middle / last message of client-streaming and bidi calls on the JSON fronts. " +
 		"Unknown fields (varint, bytes, fixed32/64, a nested message, the highest field number) on every request message and reply of the binary fronts; " +
 		"the deadline the back-end handler's context carries (none / <1 min / >=1 min buckets; scripts use none, ten seconds, five minutes) on the gRPC and gRPC-web fronts. " +
+		"\"-bin\" metadata of every length 0-9, single and multi-valued, in both base64 spellings (unpadded / padded) on the raw fronts. " +
 		"Compression values: absent, gzip, identity announced explicitly (gRPC, gRPC-web). " +
 		"Each script runs twice (direct / through larking); distinct = front x shape x plan family x message count x outcome x half-close-seen x metadata class."
 	r.Floor = 40
